@@ -29,7 +29,15 @@ type LoopSpec struct {
 	Unroll     int
 }
 
+// AtCall: `atcall <callee key> [name] <expr>`: at every call of the callee in this function the
+// expression must hold; the callee's arguments are named arg_<parameter>.
+type AtCall struct {
+	Callee string
+	Cl     *Clause
+}
+
 type FuncContract struct {
+	AtCalls  []*AtCall // caller-side obligations at the call sites of a named callee
 	Key      string // e.g. "(*Responses).Status", "Content.Get", "ValidateRequest", "strings.IndexByte", "(*Validator).Middleware$1"
 	Pkg      string // package path the contract was declared in ("" for trusted catalogue: Key is qualified)
 	Kind     string // "func", "iface", "fnfield", "trusted"
@@ -180,7 +188,7 @@ var classOverride = map[string]string{}
 var declKeywords = map[string]bool{"propertylevel": true, "propertyclasses": true, "propertyscope": true, "refwalk": true, "fieldshape": true, "walkcomplete": true, "onlycalledby": true, "default-frame": true, "extend": true, "allmethods": true, "global": true, "guarded": true, "class": true, "func": true, "iface": true, "fnfield": true, "pred": true, "spec": true, "axiom": true,
 	"lemma": true, "ghost": true, "generate": true, "trusted": true}
 var clauseKeywords = map[string]bool{"requires": true, "ensures": true, "modifies": true, "panics_if": true, "loop": true,
-	"tag": true, "pure": true, "records": true, "preserves": true, "defines": true, "assuming": true, "secret": true, "untainted": true, "returns-untainted": true, "fresh": true, "reads": true, "option": true, "nosafety": true}
+	"atcall": true, "tag": true, "pure": true, "records": true, "preserves": true, "defines": true, "assuming": true, "secret": true, "untainted": true, "returns-untainted": true, "fresh": true, "reads": true, "option": true, "nosafety": true}
 
 type rawLine struct {
 	text string
@@ -352,6 +360,36 @@ func (cs *Contracts) loadContractText(text, path, pkgPath string) error {
 				return fail("%v", err)
 			}
 			cur.Records = append(cur.Records, &Clause{Kind: "records", Name: strings.TrimSpace(rest[:k]), Src: rest, E: e, File: l.file, Line: l.line})
+		case "atcall":
+			if cur == nil {
+				return fail("clause outside a func declaration")
+			}
+			{
+				// callee key up to the first " @" / " [" / two spaces
+				k := strings.Index(rest, " [")
+				if k < 0 {
+					return fail("atcall <callee> [name] <expr>")
+				}
+				callee := strings.TrimSpace(rest[:k])
+				body := strings.TrimSpace(rest[k:])
+				cl := &Clause{Kind: "atcall", File: l.file, Line: l.line}
+				for strings.HasPrefix(callee, "@") {
+					w := firstWord(callee)
+					cl.Tags = append(cl.Tags, w[1:])
+					callee = strings.TrimSpace(callee[len(w):])
+				}
+				if kk := strings.Index(body, "]"); kk > 0 {
+					cl.Name = body[1:kk]
+					body = strings.TrimSpace(body[kk+1:])
+				}
+				cl.Src = body
+				e, err := parseExpr(body)
+				if err != nil {
+					return fail("%v", err)
+				}
+				cl.E = e
+				cur.AtCalls = append(cur.AtCalls, &AtCall{Callee: callee, Cl: cl})
+			}
 		case "modifies":
 			if cur == nil {
 				return fail("clause outside a func declaration")
@@ -817,6 +855,7 @@ func (cs *Contracts) mergeExtensions() (*Contracts, error) {
 		base.Assuming = append(base.Assuming, ext.Assuming...)
 		base.Defines = append(base.Defines, ext.Defines...)
 		base.Preserves = append(base.Preserves, ext.Preserves...)
+		base.AtCalls = append(base.AtCalls, ext.AtCalls...)
 		base.Modifies = append(base.Modifies, ext.Modifies...)
 		base.Tags = append(base.Tags, ext.Tags...)
 		base.Secrets = append(base.Secrets, ext.Secrets...)
